@@ -919,3 +919,16 @@ def target_compact(ctx):
             ctx.undecided('Block.target(bits=%s) evaluates to %s' % (bits.hex(), [show(r)[:60] for r in rets]))
         ctx.require(rets[0] == exp, q, 'target of bits %s is %s, SetCompact gives %#x' % (bits.hex(), rets[0], exp), fn, 'the target of the header is not recovered exactly')
     ctx.saw('%d compact values agree with SetCompact' % n)
+
+
+@PROP.obligation('C06.serialisers-fresh', canaries=[
+    mut.insert_before('transactions', 'Transaction.as_bytes', 'return self.raw()', 'if self.rawtx:\n    return self.rawtx', 'as_bytes answers with the bytes stored at parse time'),
+    mut.insert_before('scripts', 'Script.serialize', "raw = b''", 'if self._raw:\n    return self._raw', 'Script.serialize answers with the bytes stored earlier'),
+])
+def serialisers_fresh(ctx):
+    """The serialisers - Transaction.raw / raw_hex / as_bytes / as_hex and Script.serialize / serialize_list - compute their answer from the
+    current fields: none of them reads the serialisation stored on the object (Transaction.rawtx is filled by the parsers, the block
+    readers, the wallet import and the providers; Script._raw by parse and by `+`). Nothing invalidates those stores when inputs,
+    outputs, locktime or commands change, so an accessor that answers from them returns the bytes of an earlier state."""
+    from .common_fresh import serialisers_fresh as run
+    run(ctx)
